@@ -270,10 +270,11 @@ def cross_pred(cont, ow, orr, common, extra_reader, first_variants):
 
 
 def run_impl(cases):
-    import pydsdl as p
+    import pydsdl as pydsdl_module
     B = S.Builder()
     out = []
     for case in cases:
+        p = S.Api(pydsdl_module, case)  # omits keyword arguments that equal the documented defaults in half of the calls
         t_old, t_new = instantiate(case, False), instantiate(case, True)
         tw, tr = (t_old, t_new) if case["dir"] == "o2n" else (t_new, t_old)
         try:
